@@ -75,4 +75,21 @@ def cfgOf (m : Machine) : Cfg :=
 def arms (m : Machine) (q : Nat) (entryInitial : Bool) : Bool :=
   !entryInitial && (match m.stateOf q with | some s => s.timeoutFunc || s.timeoutMs > 0 | none => false)
 
+/-- the states visited along a path of the machine -/
+def statesAlong (m : Machine) (q : Nat) : List Sym → List Nat
+  | [] => []
+  | a :: rest => match m.step q a with
+    | some q' => q' :: statesAlong m q' rest
+    | none => []
+
+/-- what a TimeoutFunc is taken to return in the model run (its largest value) -/
+def funcValue (m : Machine) (q : Nat) : Nat :=
+  match m.stateOf q with | some s => s.tfMaxMs | none => 0
+
+/-- timer model run: start-up setState, then one setState per transition of the path -/
+def timerAfter (m : Machine) (path : List Sym) : Option T :=
+  run (cfgOf m) (init m.init)
+    (Ev.setState m.init (funcValue m m.init) ::
+      (statesAlong m m.init path).map (fun q => Ev.setState q (funcValue m q)))
+
 end GV.Timeout
